@@ -7,6 +7,7 @@ markup grammars, which are clients of the kernel and are not modelled): generate
 `emmylua_parser_desc::parse` under catch_unwind with a watchdog."""
 import json
 from vcheck import *
+import c37_classes
 
 META = {
     "category": "proof",
@@ -27,6 +28,7 @@ META = {
 
 THEOREMS = [("reader_range_in_bounds", "theorem"), ("sub_reader_in_parent", "theorem"), ("eat_loops_complete", "theorem"),
             ("emit_range_in_bounds", "theorem"), ("emitted_items_in_bounds", "theorem"), ("kernel_never_panics", "theorem"),
+            ("is_ws_chars_one_byte", "table"), ("ascii_ws_chars_one_byte", "table"),
             ("desc_lines_in_desc", "theorem"), ("sort_result_sorted", "theorem"), ("sort_result_starts_sorted", "theorem"),
             ("sort_result_permutation", "theorem"), ("sort_result_in_bounds", "theorem"),
             ("machine_example", "example"), ("nul_is_not_eof_example", "example"), ("desc_lines_example", "example"),
@@ -42,7 +44,10 @@ TRUSTED = [
     "the description node's tokens are the list (kind, start, len) the harness reads off the rowan tree",
     "the markup grammars (markdown/mod.rs, markdown_rst/mod.rs, lang/*) are not modelled; their use of the kernel API is what the "
     "theorems quantify over, their own assertions and loops are explored by the search",
-    "hook commit d67d860 (cfg-gated re-export of desc_to_lines, sort_result, BacktrackPoint)",
+    "hook commits d67d860, 40c2795 (cfg-gated re-export of desc_to_lines, sort_result, BacktrackPoint, is_ws, is_blank)",
+    "translator lib/c37_classes.py: the code points of util::is_ws read off its `matches!` patterns (anchor checks on is_blank and on the "
+    "chars-counted / bytes-stripped indentation code of desc_to_lines); validated on every run against the extension of the real "
+    "predicates over all Unicode scalar values (harness `c37 classes`)",
 ]
 
 TK = {0: "TDetail", 1: "TEol", 2: "TNormalStart", 3: "TContinue", 4: "TOther"}
@@ -106,12 +111,49 @@ def case_to_coq(c):
         coq_list([triple(t) for t in c["items"]]), coq_list([triple(t) for t in c["sorted"]]))
 
 
+GEN = os.path.join(COQ, "theories", "Gen", "C37_Classes.v")
+
+
+def translate(ck):
+    """regenerate Gen/C37_Classes.v from util.rs; the theorems Require it"""
+    try:
+        tables = c37_classes.generate(REPO, GEN)
+    except Exception as ex:
+        ck.tie_broken("translator lib/c37_classes.py: anchor missing in crates/emmylua_parser_desc/src/util.rs", repr(ex))
+        return None
+    ck.cov["table_obligations"].append({"name": "Gen/C37_Classes.v", "is_ws_chars": tables["is_ws"],
+                                        "obligations": ["is_ws_chars_one_byte", "ascii_ws_chars_one_byte"]})
+    return tables
+
+
+def classes(ck, binpath, tables):
+    """exhaustive comparison (all Unicode scalar values) of the real character-class predicates with the model's tables"""
+    rc, out, err = ck.run_bin(binpath, ["classes"], timeout=300)
+    if rc != 0:
+        ck.tie_broken("harness c37 classes failed", err[-1500:])
+        return
+    real = json.loads(out.strip().split("\n")[-1])
+    pairs = [("util::is_ws", real["is_ws"], tables["is_ws"]),
+             ("util::is_blank on one character (char::is_ascii_whitespace)", real["is_blank"], tables["ascii_ws"]),
+             ("str::trim_end (char::is_whitespace)", real["trim_end"], tables["unicode_ws"])]
+    for name, got, want in pairs:
+        if sorted(got) != sorted(want):
+            diff = sorted(set(got) ^ set(want))
+            ck.tie_broken("character class %s differs from the model's table on %s" % (name, ", ".join("U+%04X" % x for x in diff[:12])),
+                          "real: %s\nmodel: %s" % (got[:60], want[:60]))
+    if not real.get("is_blank_empty"):
+        ck.tie_broken("util::is_blank(\"\") is no longer true", "")
+    ck.cov["distribution"]["character_classes"] = {"scalars_compared_per_predicate": 0x110000 - 0x800, "predicates": 3,
+                                                   "is_ws": real["is_ws"], "multi_byte_is_ws": [x for x in real["is_ws"] if x > 127]}
+    ck.cov["traces_validated_against_impl"] += 3
+
+
 def correspondence(ck, binpath, n):
     rc, out, err = ck.run_bin(binpath, ["corr", "--seed", ck.seed, "--n", n])
     if rc != 0:
         ck.tie_broken("harness c37 corr failed", err[-2000:])
         return
-    cases = [json.loads(l) for l in out.splitlines() if l.strip()]
+    cases = [json.loads(l) for l in out.split("\n") if l.strip()]
     terms = [case_to_coq(c) for c in cases]
     failing = ck.coq_failing("corr", terms, ["EV.C37.Model", "EV.C37.Corr"], per_shard=60, timeout=1500)
     dist = {"machine_cases": 0, "machine_steps": 0, "desc_cases": 0, "sort_cases": 0, "desc_lines_outside_description": 0,
@@ -167,7 +209,7 @@ def search(ck, binpath, n):
         ck.tie_broken("harness c37 search failed", (out[-1000:] + err[-2000:]))
         return
     got = False
-    for l in out.splitlines():
+    for l in out.split("\n"):
         if not l.strip():
             continue
         v = json.loads(l)
@@ -192,7 +234,7 @@ def replay(ck, binpath, path):
         if c.get("cursor") is not None:
             args += ["--cursor", c["cursor"]]
         rc, out, err = ck.run_bin(binpath, args, timeout=120)
-        for l in out.splitlines():
+        for l in out.split("\n"):
             try:
                 vv = json.loads(l)
             except ValueError:
@@ -207,14 +249,25 @@ def main(argv):
     if ck.replay and bins:
         replay(ck, bins["c37"], ck.replay)
         ck.finish(trusted_base=TRUSTED)
+    tables = translate(ck)
     ok = ck.coq_make(["theories/C37/Props.vo", "theories/C37/Corr.vo"])
+    if not ok and tables is not None and any(x > 127 for x in tables["is_ws"]):
+        ck.broken[-1]["what"] = ("table obligation is_ws_chars_one_byte fails: util::is_ws accepts the multi-byte character(s) %s, but desc_to_lines "
+                                 "counts the common indentation in characters and strips it in bytes" % ", ".join("U+%04X" % x for x in tables["is_ws"] if x > 127))
+        # the model (Corr.v does not depend on the proofs) is still needed for the correspondence
+        if ck.coq_make(["theories/C37/Corr.vo"]):
+            ck.broken = [b for b in ck.broken if b["what"] != "Coq build failed for theories/C37/Corr.vo"]
     if ok:
         ck.coq_gates(["C37"], THEOREMS, "EV.C37.Props")
         for base in ("Text.v", "TextFacts.v"):   # the shared files this development depends on (other Base files belong to other checks)
             hits = section_aware_forbidden(os.path.join(COQ, "theories", "Base", base))
             if hits:
                 ck.proof_broken("forbidden vernacular in Base/%s" % base, json.dumps(hits[:5]))
+    if not ok:
+        ck.cov["obligations"] += len(THEOREMS)
     if bins:
+        if tables is not None:
+            classes(ck, bins["c37"], tables)
         if ok or os.path.exists(os.path.join(COQ, "theories/C37/Corr.vo")):
             correspondence(ck, bins["c37"], ck.scale(600, 6000))
         if ck.broken:
@@ -223,7 +276,9 @@ def main(argv):
     ck.finish(
         trusted_base=TRUSTED,
         rule="search: Lua sources holding one generated comment block (1-10 lines; '---' / '--' / '----' / dashed frames / tag lines / "
-             "'#region' / long comments; LF or CRLF; fragments from a Markdown+MyST vocabulary, an RST vocabulary, both, or a character "
+             "'#region' / long comments; LF or CRLF; leading indentation per block in one of four styles: ASCII, space/tab/U+3000 on every line, "
+             "one exotic blank repeated, any mixture of space, tab, NBSP, U+1680, U+2000-200A, U+2028/2029, U+202F, U+205F, U+3000, U+FEFF, NEL, VT, FF and "
+             "multi-byte letters; the same blanks between fragments; fragments from a Markdown+MyST vocabulary, an RST vocabulary, both, or a character "
              "soup; code fences and directives with lua/json/sql/vim/shell/protobuf bodies; multi-byte, astral, combining, NBSP, U+2028 and "
              "NUL characters) x every description node x Md / MyST / RST (random primary_domain / default_role) x cursor None plus random / "
              "after-marker cursors; oracle = no panic, no hang (15 s watchdog), every item inside the description node (extended leftwards "
